@@ -1364,3 +1364,80 @@ def check_stereo_index(prog: Program, res: Result) -> None:
         else:
             res.ok("R-STEREO-INDEX", inst, fi.loc(call))
     res.need("R-STEREO-INDEX", n, 6, "index appends")
+
+
+# ---------------------------------------------------------------------------
+def _set_effects(fn: ast.AST) -> set[tuple[str, str, str]]:
+    """(target, op, argument) triples of the set bookkeeping statements;
+    op in {union, minus, discard, add}."""
+    out = set()
+    for s_ in ast.walk(fn):
+        if isinstance(s_, ast.AugAssign) and isinstance(s_.target, ast.Name):
+            op = {ast.BitOr: "union", ast.Sub: "minus"}.get(type(s_.op))
+            if op:
+                out.add((s_.target.id, op, norm(s_.value)))
+        elif isinstance(s_, ast.Call) and isinstance(s_.func, ast.Attribute) \
+                and isinstance(s_.func.value, ast.Name) and s_.args:
+            op = {"update": "union", "difference_update": "minus",
+                  "discard": "discard", "remove": "discard",
+                  "add": "add"}.get(s_.func.attr)
+            if op:
+                out.add((s_.func.value.id, op, norm(s_.args[0])))
+        elif isinstance(s_, ast.Assign) and isinstance(
+                s_.targets[0], ast.Name) and isinstance(s_.value, ast.BinOp):
+            t = s_.targets[0].id
+            if norm(s_.value.left) == t:
+                op = {ast.BitOr: "union", ast.Sub: "minus"}.get(
+                    type(s_.value.op))
+                if op:
+                    out.add((t, op, norm(s_.value.right)))
+    return out
+
+
+def check_state_shape(prog: Program, res: Result) -> None:
+    """Side-1 effects of _update_state (side 2 follows from the mirror rule):
+    a mistake made symmetrically on both sides passes A9 but not this."""
+    res.rule("R-STATE-SHAPE", "_update_state moves the unmapped neighbours of "
+             "the new atom from external to frontier and removes the new atom "
+             "from both sets (any of the usual set-update spellings)")
+    from .core import unroll_literal_loops
+    fi0 = prog.fn(f"{MOD}:_update_state")
+    fn = unroll_literal_loops(fi0.node)
+    eff = _set_effects(fn)
+    defs = [s_ for s_ in ast.walk(fn) if isinstance(s_, ast.Assign)
+            and isinstance(s_.value, ast.SetComp)]
+    um = None
+    for d in defs:
+        g = d.value.generators[0]
+        if norm(g.iter) == "g1_nbrhd[new_atom1]" and len(g.ifs) == 1 and \
+                norm(g.ifs[0]) == f"{norm(g.target)} not in mapping" and \
+                norm(d.value.elt) == norm(g.target):
+            um = norm(d.targets[0])
+    inst = "_update_state: unmapped neighbours of the new atom"
+    if um is None:
+        res.unrecognised("R-STATE-SHAPE", inst, fi0.loc(),
+                         "`{n for n in g1_nbrhd[new_atom1] if n not in "
+                         "mapping}` not found")
+        return
+    res.ok("R-STATE-SHAPE", inst, fi0.loc())
+    for tgt, op, arg, why in (
+            ("frontier1", "union", um, "new neighbours enter the frontier"),
+            ("external1", "minus", um, "and leave the external set"),
+            ("frontier1", "discard", "new_atom1", "the mapped atom leaves the frontier"),
+            ("external1", "discard", "new_atom1", "and the external set")):
+        inst = f"_update_state: {tgt} {op} {arg}"
+        if (tgt, op, arg) in eff:
+            res.ok("R-STATE-SHAPE", inst, fi0.loc())
+        else:
+            res.bad("R-STATE-SHAPE", inst, fi0.loc(),
+                    f"_update_state never performs `{tgt}` {op} `{arg}` "
+                    f"({why}): frontier / external no longer partition the "
+                    "unmapped atoms and _graph_feasibility compares wrong "
+                    "label multisets", instance=inst)
+    # wrong-direction effects
+    for tgt, op, arg in sorted(eff):
+        if (tgt, op) in (("external1", "union"), ("frontier1", "minus")) and \
+                arg == um:
+            res.bad("R-STATE-SHAPE", f"_update_state: {tgt} {op} {arg}",
+                    fi0.loc(), f"_update_state performs `{tgt}` {op} `{arg}`: "
+                    "the neighbours move in the wrong direction")
